@@ -203,8 +203,110 @@ pub fn collision_family(kb: usize, kw: usize, f: &mut dyn FnMut(G)) {
     }
 }
 
+/// Part b in a real bash: the `||` grammar and its `|` rewrite answer the same traces
+fn bash_differential(tier: Tier, rep: &mut Report) -> (u64, u64) {
+    use crate::bashrun::{self, Query};
+    use crate::traces::{explore_mode, std_probes, vocabulary};
+    let (defs, probes) = std_probes();
+    let scratch = crate::binrun::Scratch::new("c09b");
+    let lit = E::lit;
+    let p1 = || E::cmd(&bashrun::probe_cmd("1"));
+    let color = || E::Word(vec![lit("--color="), E::Alt(vec![lit("always"), lit("never")])]);
+    let mut items: Vec<E> = vec![lit("status"), color(), p1(), E::Seq(vec![lit("a"), lit("x")]), E::Seq(vec![lit("a"), lit("y")])];
+    if tier == Tier::Thorough {
+        items.push(lit("stop"));
+        items.push(E::r("U"));
+        items.push(E::Word(vec![lit("k="), p1()]));
+        items.push(E::Opt(Box::new(lit("o"))));
+        items.push(E::Many(Box::new(lit("m"))));
+    }
+    let mut grammars: Vec<G> = vec![];
+    for (i, x) in items.iter().enumerate() {
+        for (j, y) in items.iter().enumerate() {
+            if i == j {
+                continue;
+            }
+            grammars.push(crate::fam::call(E::Seq(vec![E::Fb(vec![x.clone(), y.clone()]), lit("end")])));
+            if tier == Tier::Thorough || (i + j) % 4 == 1 {
+                grammars.push(crate::fam::call(E::Fb(vec![x.clone(), y.clone(), lit("help")])));
+            }
+        }
+    }
+    grammars.push(crate::fam::call(E::Word(vec![lit("w="), E::Fb(vec![lit("p"), lit("q")]), E::Opt(Box::new(lit(",r")))])));
+    let mut seen = std::collections::BTreeSet::new();
+    let mut traces_n = 0u64;
+    let mut pairs = 0u64;
+    for g in grammars {
+        let text = print_grammar(&g);
+        if !seen.insert(text.clone()) {
+            continue;
+        }
+        let g2 = G {
+            stmts: g
+                .stmts
+                .iter()
+                .map(|s| match s {
+                    Stmt::Call { name, expr } => Stmt::Call { name: name.clone(), expr: expr.fb_to_alt() },
+                    Stmt::Def { name, shell, expr } => Stmt::Def { name: name.clone(), shell: shell.clone(), expr: expr.fb_to_alt() },
+                })
+                .collect(),
+        };
+        let text2 = print_grammar(&g2);
+        let (c1, c2) = match (pipe::compile(&text, Shell::Bash), pipe::compile(&text2, Shell::Bash)) {
+            (Outcome::Ok(a), Outcome::Ok(b)) => (a, b),
+            _ => continue,
+        };
+        let (Ok(s1), Ok(s2)) = (pipe::emit(&c1, Shell::Bash), pipe::emit(&c2, Shell::Bash)) else { continue };
+        let Ok(a) = crate::refsem::reference(&g, Shell::Bash) else { continue };
+        let vocab = vocabulary(&a, &probes);
+        let ex = explore_mode(&a, &probes, &vocab, 2, tier.pick(28, 400), tier == Tier::Quick);
+        let queries: Vec<Query> = ex
+            .traces
+            .iter()
+            .map(|t| {
+                let mut w = t.path.clone();
+                w.push(t.cursor.clone());
+                Query { words: w, default_wordbreaks: t.default_wb }
+            })
+            .collect();
+        let b1 = bashrun::run_batch(&s1, &c1.command, &defs, &queries, &scratch);
+        let b2 = bashrun::run_batch(&s2, &c2.command, &defs, &queries, &scratch);
+        if b1.failed.is_some() || b2.failed.is_some() {
+            eprintln!("machinery failure: {:?} {:?}", b1.failed, b2.failed);
+            std::process::exit(2);
+        }
+        pairs += 1;
+        for ((t, x), y) in ex.traces.iter().zip(b1.answers.iter()).zip(b2.answers.iter()) {
+            traces_n += 1;
+            let norm = |a: &bashrun::Answer| a.replies.iter().map(|r| r.strip_suffix(' ').unwrap_or(r).to_string()).collect::<std::collections::BTreeSet<String>>();
+            let (rx, ry) = (norm(x), norm(y));
+            let line = format!("cmd {}<TAB>", t.path.iter().map(|w| format!("{w} ")).collect::<String>() + &t.cursor);
+            let detail = |why: &str| {
+                J::obj(vec![
+                    ("grammar", J::s(&text)),
+                    ("alt_variant", J::s(&text2)),
+                    ("command_line", J::s(&line)),
+                    ("fallback_offers", J::arr_s(rx.iter().cloned())),
+                    ("alternative_offers", J::arr_s(ry.iter().cloned())),
+                    ("return_codes", J::s(format!("{} vs {}", x.rc, y.rc))),
+                    ("why", J::s(why)),
+                ])
+            };
+            if x.rc != y.rc {
+                rep.violation("bash-fallback-changes-matching", format!("`{line}`: `||` grammar `{}` returns {} but its `|` variant returns {}", text.trim_end(), x.rc, y.rc), detail("return code"));
+            } else if !rx.is_subset(&ry) {
+                rep.violation("bash-fallback-offers-more", format!("`{line}`: `||` grammar `{}` offers {rx:?}, not a subset of what its `|` variant offers {ry:?}", text.trim_end()), detail("subset"));
+            } else if rx.is_empty() && !ry.is_empty() {
+                rep.violation("bash-fallback-hides-candidates", format!("`{line}`: `|` variant offers {ry:?} but the `||` grammar `{}` offers nothing", text.trim_end()), detail("hidden"));
+            }
+        }
+    }
+    (pairs, traces_n)
+}
+
 pub fn run(tier: Tier) -> Report {
     let mut rep = Report::new("C09", tier, "model_checking");
+    let (bash_pairs, bash_traces) = bash_differential(tier, &mut rep);
     let k = tier.pick(5, 6);
     let (kb, kw) = tier.pick((3, 3), (4, 4));
     let n = crate::par::nthreads();
@@ -239,7 +341,8 @@ pub fn run(tier: Tier) -> Report {
     }
     rep.cov("states", J::i(t.states as i64));
     rep.cov("transitions", J::i(t.transitions as i64));
-    rep.cov("traces_validated_against_impl", J::i(0));
+    rep.cov("traces_validated_against_impl", J::i(bash_traces as i64));
+    rep.cov("bash_fallback_vs_alternative_grammar_pairs", J::i(bash_pairs as i64));
     rep.cov("grammars_enumerated", J::i(t.grammars as i64));
     rep.cov("accepted", J::i(t.accepted as i64));
     rep.cov("item_pairs_examined", J::i(t.pairs as i64));
@@ -248,7 +351,7 @@ pub fn run(tier: Tier) -> Report {
     rep.cov(
         "rule",
         J::s(format!(
-            "exhaustive: collision family (all pairs of trees <= {kb} nodes over {{a, b}} as `||` branches, `|` branches, two call variants, and followed by a word; all pairs of within-word expressions <= {kw} nodes over {{a, b, p=}} after `x=` in two branches, also through a definition) + all trees <= {k} nodes over V0 + corpus. Every state of every compiled (minimized) automaton incl. within-word automata is visited; every pair of outgoing items is examined; states/transitions = automaton states/edges visited plus the product states of the `||` vs `|` comparison (labels with fallback levels and descriptions erased)."
+            "exhaustive: collision family (all pairs of trees <= {kb} nodes over {{a, b}} as `||` branches, `|` branches, two call variants, and followed by a word; all pairs of within-word expressions <= {kw} nodes over {{a, b, p=}} after `x=` in two branches, also through a definition) + all trees <= {k} nodes over V0 + corpus. Every state of every compiled (minimized) automaton incl. within-word automata is visited; every pair of outgoing items is examined; states/transitions = automaton states/edges visited plus the product states of the `||` vs `|` comparison (labels with fallback levels and descriptions erased). Bash level: `(X || Y) end`, `X || Y || help` and a within-word `||` for all ordered pairs of a menu of literals, words, probes, sequences starting alike and a placeholder; the traces of the model of the `||` grammar (depth 2) are replayed against both emitted scripts in real bash: same return code, candidates(||) subset of candidates(|), candidates(|) non-empty implies candidates(||) non-empty."
         )),
     );
     rep.cov("exhaustive", J::Bool(true));
